@@ -1,6 +1,6 @@
 (* C17 — bytes_eq_spec: goja's arithmetic (MI) and the specification (MS) give the same state, result
    and touched ranges, for every state satisfying the view invariant and every operation inside the
-   explicit guard [eq_guard] (which carves out the two open findings and one unproved region). *)
+   explicit guard [eq_guard] (which carves out one region whose equality is not proved). *)
 From Coq Require Import ZArith List Bool NArith SpecFloat Lia ZifyBool.
 From Verif.Base Require Import F64.
 From Verif.C17 Require Import Model Proofs ProofsTouch.
@@ -92,22 +92,8 @@ Proof.
 Qed.
 
 (* ------------------------------------------------------------------ the guard *)
-Definition type_ok (k : kind) (a : varg) : bool := Bool.eqb (va_big a) (is_big k).
-
 Definition eq_guard (st : state) (o : op) : bool :=
   match o with
-  | OSet v k a =>
-      (* open finding C17-N9: a non-index numeric key with a value of the wrong type *)
-      match nth_error (views st) v with
-      | Some vw => key_converts MI k || type_ok (v_kind vw) a
-      | None => true
-      end
-  | OFill v a _ _ =>
-      (* open finding C17-N8: the order of the coercions is visible when the value has the wrong type *)
-      match nth_error (views st) v with
-      | Some vw => type_ok (v_kind vw) a
-      | None => true
-      end
   | OSetTyped v sv _ =>
       (* different element types: goja copies in place in an order chosen from the addresses, the
          specification copies from a clone of the source; their equality is proved for distinct
@@ -118,13 +104,6 @@ Definition eq_guard (st : state) (o : op) : bool :=
       end
   | _ => true
   end.
-
-Lemma raw_bits_type_ok : forall m k a st,
-  type_ok k a = true -> exists z, raw_bits m k (snd (co_val st a)) = Some z.
-Proof.
-  intros m k a st H. unfold type_ok in H. apply eqb_prop in H. unfold co_val. simpl.
-  destruct (va_big a); destruct k; simpl in H; try discriminate H; simpl; eauto.
-Qed.
 
 (* ------------------------------------------------------------------ distinct buffers: in place = clone *)
 Lemma getb_wr_buf_other : forall st b b' i bs, b <> b' -> getb (wr_buf st b i bs) b' = getb st b'.
@@ -166,6 +145,12 @@ Definition oval (s : option iarg) (d : Z) : Z := match s with Some x => to_integ
 Lemma co_opt_eff : forall st s d, co_opt st s d = (eff st (odet s), oval s d).
 Proof. intros st [x|] d; reflexivity. Qed.
 
+Lemma scan_eq : forall st vw eq x idxs, aligned vw -> scan MI st vw eq x idxs = scan MS st vw eq x idxs.
+Proof.
+  intros st vw eq x idxs Hal. unfold scan. induction idxs as [|i r IH]; cbn [find_idx]; [reflexivity|].
+  rewrite get_elt_eq by assumption. rewrite IH. reflexivity.
+Qed.
+
 Lemma fill_tail_eq : forall st vw bs rs re, aligned vw -> fill_tail MI st vw bs rs re = fill_tail MS st vw bs rs re.
 Proof. intros. unfold fill_tail. rewrite addr_MI_MS by assumption. reflexivity. Qed.
 
@@ -178,14 +163,11 @@ Proof.
     destruct (Iv v vw Hv) as (_ & _ & Hal & _).
     destruct k; [|reflexivity]. rewrite get_elt_eq by assumption. reflexivity.
   - (* set *)
-    unfold op_set, with_view. cbn [eq_guard] in G. revert G. destruct (nth_error (views st) v) as [vw|] eqn:Hv; [|reflexivity]. intros G.
+    unfold op_set, with_view. destruct (nth_error (views st) v) as [vw|] eqn:Hv; [|reflexivity].
     destruct (Iv v vw Hv) as (_ & _ & Hal & _).
-    destruct (co_val st a) as [st1 p] eqn:Ec. rewrite num_to_raw_eq.
-    destruct (num_to_raw MS (v_kind vw) true p) eqn:En.
-    + destruct k; [|reflexivity]. rewrite put_raw_eq by assumption. reflexivity.
-    + destruct (key_converts MI k) eqn:Ek; [destruct k; reflexivity|].
-      try rewrite Ek in G. cbn [orb] in G. destruct (raw_bits_type_ok MS (v_kind vw) a st G) as [z Hz].
-      rewrite Ec in Hz. simpl in Hz. unfold num_to_raw in En. rewrite Hz in En. discriminate En.
+    destruct (co_val st a) as [st1 p]. rewrite num_to_raw_eq.
+    destruct (num_to_raw MS (v_kind vw) true p); [|reflexivity].
+    destruct k; [|reflexivity]. rewrite put_raw_eq by assumption. reflexivity.
   - (* set(array) *)
     unfold op_setarr, with_view. destruct (nth_error (views st) v) as [vw|] eqn:Hv; [|reflexivity].
     destruct (Iv v vw Hv) as (_ & _ & Hal & _).
@@ -216,17 +198,12 @@ Proof.
     destruct (co_int st t) as [st1 rt]. destruct (co_int st1 f) as [st2 rf]. destruct (co_opt st2 e (v_len vw)) as [st3 re].
     rewrite !addr_MI_MS by assumption. reflexivity.
   - (* fill *)
-    unfold op_fill, with_view. cbn [eq_guard] in G. revert G. destruct (nth_error (views st) v) as [vw|] eqn:Hv; [|reflexivity]. intros G.
+    unfold op_fill, with_view. destruct (nth_error (views st) v) as [vw|] eqn:Hv; [|reflexivity].
     destruct (Iv v vw Hv) as (_ & _ & Hal & _).
-    destruct (is_det st (v_buf vw)); [reflexivity|].
-    rewrite !co_opt_eff. unfold co_val. cbv iota beta.
-    rewrite !co_opt_eff. cbv iota beta.
-    rewrite num_to_raw_eq.
-    destruct (raw_bits_type_ok MS (v_kind vw) a st G) as [z Hz]. unfold co_val in Hz. simpl in Hz.
-    unfold num_to_raw. rewrite Hz. simpl option_map. cbv iota beta.
-    replace (eff (eff (eff st (odet s)) (odet e)) (va_det a)) with (eff (eff (eff st (va_det a)) (odet s)) (odet e)).
-    2:{ rewrite (eff_comm (eff st (odet s)) (odet e) (va_det a)). rewrite (eff_comm st (odet s) (va_det a)). reflexivity. }
-    apply fill_tail_eq. assumption.
+    destruct (co_val st a) as [s1 p]. rewrite num_to_raw_eq.
+    destruct (num_to_raw MS (v_kind vw) true p); [|reflexivity].
+    destruct (co_opt s1 s 0) as [s2 rs]. destruct (co_opt s2 e (v_len vw)) as [s3 re].
+    rewrite fill_tail_eq by assumption. reflexivity.
   - (* slice *)
     unfold op_slice, with_view. destruct (nth_error (views st) v) as [vw|] eqn:Hv; [|reflexivity].
     destruct (Iv v vw Hv) as (_ & _ & Hal & _).
@@ -249,10 +226,29 @@ Proof.
     unfold op_dvset. destruct (nth_error (dviews st) d) as [dv|]; [|reflexivity].
     destruct (co_int st i) as [st1 ri]. destruct (to_index ri); [|reflexivity].
     destruct (co_val st1 a) as [st2 p]. rewrite num_to_raw_eq. reflexivity.
+  - (* includes *)
+    unfold op_search_fwd, with_view. destruct (nth_error (views st) v) as [vw|] eqn:Hv; [|reflexivity].
+    destruct (Iv v vw Hv) as (_ & _ & Hal & _).
+    destruct (co_opt st from 0) as [st1 n]. rewrite scan_eq by assumption.
+    rewrite !addr_MI_MS by assumption. reflexivity.
+  - (* indexOf *)
+    unfold op_search_fwd, with_view. destruct (nth_error (views st) v) as [vw|] eqn:Hv; [|reflexivity].
+    destruct (Iv v vw Hv) as (_ & _ & Hal & _).
+    destruct (co_opt st from 0) as [st1 n]. rewrite scan_eq by assumption.
+    rewrite !addr_MI_MS by assumption. reflexivity.
+  - (* lastIndexOf *)
+    unfold op_lastindexof, with_view. destruct (nth_error (views st) v) as [vw|] eqn:Hv; [|reflexivity].
+    destruct (Iv v vw Hv) as (_ & _ & Hal & _).
+    destruct (co_opt st from (v_len vw - 1)) as [st1 n]. rewrite scan_eq by assumption.
+    destruct (scan MS st1 vw strict_eq x _) as [i|]; rewrite !addr_MI_MS by assumption; reflexivity.
 Qed.
 
-(* the guard is not vacuous and is exactly where it has to be: outside it the two readings differ *)
-Example guard_excludes_open_findings :
-  eq_guard st_n8 op_n8 = false /\ eq_guard st_n8 (OSet 0 KNonInt (vnum 1 None)) = false /\
-  eq_guard st_n8 (OSet 0 (KIdx 1) (vnum 1 None)) = true /\ eq_guard st_n8 (OFill 0 (mkV true (-1) None) None None) = true.
-Proof. vm_compute. repeat split; reflexivity. Qed.
+(* the guard only excludes set(typedArray) between different kinds on one buffer *)
+Definition st_ov : state := mkSt [mkBuf b16 false; mkBuf b16 false] [mkView 0 0 4 Int16; mkView 0 2 4 Uint8; mkView 1 0 4 Uint8] [].
+Example guard_examples :
+  eq_guard st_ov (OSetTyped 0 1 (num 0 None)) = false /\ eq_guard st_ov (OSetTyped 0 2 (num 0 None)) = true /\
+  eq_guard st_ov (OSetTyped 1 2 (num 0 None)) = true /\ eq_guard st_n8 (OFill 0 (vnum 1 None) (Some (num 0 (Some 0%nat))) None) = true /\
+  (* outside the guard the bytes still agree on this instance; the ORDER of the touches differs *)
+  fst (fst (step MI st_ov (OSetTyped 0 1 (num 0 None)))) = fst (fst (step MS st_ov (OSetTyped 0 1 (num 0 None)))) /\
+  step MI st_ov (OSetTyped 0 1 (num 0 None)) <> step MS st_ov (OSetTyped 0 1 (num 0 None)).
+Proof. vm_compute. repeat split; try reflexivity. discriminate. Qed.
